@@ -53,6 +53,8 @@ func c09gTTLName(d time.Duration) string {
 		return "temp"
 	case d == peerstore.RecentlyConnectedAddrTTL:
 		return "recent"
+	case d == peerstore.PermanentAddrTTL:
+		return "permanent"
 	case d >= peerstore.ConnectedAddrTTL:
 		return "connected"
 	}
@@ -98,7 +100,7 @@ type c09gInst struct {
 
 func c09gOps() []c09gOp {
 	var ops []c09gOp
-	ttls := []time.Duration{peerstore.TempAddrTTL, peerstore.RecentlyConnectedAddrTTL, peerstore.ConnectedAddrTTL}
+	ttls := []time.Duration{peerstore.TempAddrTTL, peerstore.RecentlyConnectedAddrTTL, peerstore.ConnectedAddrTTL, peerstore.PermanentAddrTTL}
 	for e := range c09gEntries {
 		for _, t := range ttls {
 			ops = append(ops, c09gOp{K: "add", E: e, TTL: t})
@@ -107,6 +109,8 @@ func c09gOps() []c09gOp {
 	ops = append(ops, c09gOp{K: "adv", D: time.Minute}, c09gOp{K: "adv", D: 14 * time.Minute}, c09gOp{K: "gc"})
 	for e := range c09gEntries {
 		ops = append(ops, c09gOp{K: "set", E: e, TTL: 0}, c09gOp{K: "set", E: e, TTL: peerstore.TempAddrTTL})
+		// the two never-expiring classes are distinct classes for UpdateAddrs: overriding one with the other counts
+		ops = append(ops, c09gOp{K: "set", E: e, TTL: peerstore.ConnectedAddrTTL}, c09gOp{K: "set", E: e, TTL: peerstore.PermanentAddrTTL})
 	}
 	for p := range c09gPeers {
 		ops = append(ops, c09gOp{K: "upd", P: p, OldTTL: peerstore.ConnectedAddrTTL, TTL: peerstore.RecentlyConnectedAddrTTL},
